@@ -382,6 +382,13 @@ fn hostile(r: &mut Xo, valid: &str, out: &mut Out) -> String {
                 }
                 return String::from_utf8_lossy(&v).into_owned();
             }
+            if r.chance(1, 8) {
+                // a well-formed encoding of a shape the constructors cannot build
+                out.bump("hostile_empty_transition_vector");
+                if let Some(s) = crate::props::c12::empty_vector_string(r.below(13) as usize, r.chance(1, 2)) {
+                    return s;
+                }
+            }
             out.bump("hostile_random_ascii");
             let n = r.range(0, 200) as usize;
             (0..n).map(|_| (r.range(32, 126) as u8) as char).collect()
